@@ -246,6 +246,13 @@ def c03(run):
     run.exhaustive = True
     path = drive_eval(run, "c03", run.q(1800, 60000), depth=run.q(5, 6))
     validate_trace(run, "CelEvalTrace", path, nontrivial=lambda c: json.dumps(c.get("ast")).count('"k"') >= 3)
+    # the standard function `matches`: CelRegex is first checked against an independent denotational reading of the
+    # same syntax (all patterns up to 5 code points of a 13-token alphabet x all words up to 3 over {a, b}), then the
+    # implementation's answers for every token string up to 3/4 tokens and a pool of longer patterns are validated
+    model_check(run, "CelRegexMC", workers=run.q(4, 12))
+    path = drive_ops(run, "rx")
+    validate_trace(run, "CelOpTrace", path, sample_key=op_sample, nontrivial=lambda c: True,
+                   what="matches: the answers for one pattern over the text table differ from CelRegex")
 
 
 # ----------------------------------------------------------------------------------------------
